@@ -203,11 +203,15 @@ class Verifier:
             elif k == 'f':
                 if s[3] not in self.active_vars():
                     raise MMError(f'$f for undeclared variable {s[3]}')
+                if s[2] not in self.constants:
+                    raise MMError(f'typecode {s[2]} not declared')
                 self.order += 1
                 h = ('f', s[1], s[2], s[3], self.order)
                 self.scopes[-1]['f'].append(h)
                 self.labels[s[1]] = h
             elif k == 'e':
+                for t in s[2]:
+                    self.check_symbols(t)
                 self.order += 1
                 h = ('e', s[1], s[2], self.order)
                 self.scopes[-1]['e'].append(h)
@@ -234,7 +238,16 @@ class Verifier:
             else:
                 raise MMError(f'unknown statement {k}')
 
+    def check_symbols(self, t):
+        if t[0] == 'app':
+            if t[1] not in self.constants:
+                raise MMError(f'constant {t[1]} used but not declared')
+            for x in t[2]:
+                self.check_symbols(x)
+
     def check_body(self, body):
+        for t in body:
+            self.check_symbols(t)
         av = self.active_vars()
         for v in body_vars(body):
             if v not in av:
